@@ -13,7 +13,8 @@ Inductive obs :=
 | OAdmin (c : addr) (v : option ontid)
 | OFuncs (c : addr) (r : role) (v : option (list fname))
 | OTokens (c : addr) (id : ontid) (v : option (list token))
-| ODeleg (c : addr) (id : ontid) (v : option (list dstat)).
+| ODeleg (c : addr) (id : ontid) (v : option (list dstat))
+| OBad.   (* the stored record did not parse back (reported by the oracle); never matches *)
 
 Record stepc := mkStep {
   st_now : N;
@@ -45,6 +46,7 @@ Definition obs_ok (s : state) (o : obs) : bool :=
   | OFuncs c r v => opt_eqb (list_eqb bytes_eqb) (s_funcs s (c, r)) v
   | OTokens c id v => opt_eqb (list_eqb token_eqb) (s_tokens s (c, id)) v
   | ODeleg c id v => opt_eqb (list_eqb dstat_eqb) (s_deleg s (c, id)) v
+  | OBad => false
   end.
 
 Definition res_eqb (a b : res) : bool :=
